@@ -205,11 +205,23 @@ def extract_witness(rep):
                     ufs[name] = str(interp)[:300]
             except Exception:
                 pass
-        return {"case": label, "params": params, "objects": d.objs, "lists": d.lists, "dicts": d.dicts, "ufs": ufs}
+        classes = {}
+        for cname, cv in getattr(E, "class_objs", {}).items():
+            try:
+                classes[cname] = d.value(cv)
+            except Exception:
+                pass
+        w = {"case": label, "params": params, "objects": d.objs, "lists": d.lists, "dicts": d.dicts, "ufs": ufs}
+        if classes:
+            w["classes"] = classes  # mutable class variables at entry
+        return w
     return extract
 
 
 # ------------------------------------------------------------------ description -> live objects
+_MISSING = object()
+
+
 class Builder:
     def __init__(self, wit, stubs):
         self.w = wit
@@ -221,6 +233,8 @@ class Builder:
     def cls(self, name):
         if name in self.stubs:
             return self.stubs[name]
+        if name.endswith("$cls"):
+            return type(str(name[:-4] + "_classvars"), (object,), {})
         from . import frontend
         P = frontend.Program()
         ci = P.find_class(name)
@@ -253,7 +267,25 @@ class Builder:
             init = getattr(o, "__stub_init__", None)
             if init:
                 init()
+        # mutable class variables: installed on the real classes, to be put back by restore()
+        self.saved_classvars = []
+        for cname, ref in (self.w.get("classes") or {}).items():
+            real = self.cls(cname)
+            holder = self.val(ref)
+            for f, v in vars(holder).items():
+                self.saved_classvars.append((real, f, real.__dict__.get(f, _MISSING)))
+                setattr(real, f, v)
         return {n: self.val(v) for n, v in self.w["params"].items()}
+
+    def restore(self):
+        for real, f, old in reversed(getattr(self, "saved_classvars", [])):
+            if old is _MISSING:
+                try:
+                    delattr(real, f)
+                except AttributeError:
+                    pass
+            else:
+                setattr(real, f, old)
 
     def val(self, x):
         if isinstance(x, dict):
@@ -284,6 +316,16 @@ class Builder:
 class _OldRewriter(ast.NodeTransformer):
     def __init__(self):
         self.olds = []
+        self.by_identity = set()  # names of olds compared with `is` / `is not`: the reference itself is kept
+
+    def visit_Compare(self, node):
+        ident = any(isinstance(o, (ast.Is, ast.IsNot)) for o in node.ops)
+        before = len(self.olds)
+        node = self.generic_visit(node)
+        if ident:
+            for n, _e in self.olds[before:]:
+                self.by_identity.add(n)
+        return node
 
     def visit_Call(self, node):
         if isinstance(node.func, ast.Name) and node.func.id == "implies" and len(node.args) == 2:
@@ -333,7 +375,8 @@ class NativeContract:
         rw = _OldRewriter()
         tree = rw.visit(tree)
         ast.fix_missing_locations(tree)
-        olds = [(n, compile(ast.fix_missing_locations(ast.Expression(body=e)), "<old>", "eval")) for n, e in rw.olds]
+        olds = [(n, compile(ast.fix_missing_locations(ast.Expression(body=e)), "<old>", "eval"), n in rw.by_identity)
+                for n, e in rw.olds]
         return compile(tree, "<clause>", "eval"), olds
 
     def check_requires(self, env):
@@ -352,9 +395,11 @@ class NativeContract:
         for e in self.c.ensures:
             code, olds = self._compile(e)
             vals = {}
-            for n, oc in olds:
+            for n, oc, by_id in olds:
                 try:
-                    vals[n] = copy.deepcopy(eval(oc, self.ns, dict(env)))
+                    vals[n] = eval(oc, self.ns, dict(env))
+                    if not by_id:
+                        vals[n] = copy.deepcopy(vals[n])
                 except Exception as ex:
                     vals[n] = ex
             comp.append((e, code, vals))
@@ -438,12 +483,28 @@ def run_witness(qual, wit, R=None, stubs=None):
     c = R.contracts[qual]
     stubs = dict(getattr(R, "native_stubs", {}) if stubs is None else stubs)
     out = {"function": qual}
+    b = Builder(wit, stubs)
     try:
-        env = Builder(wit, stubs).build()
+        return _run_witness(qual, wit, R, c, b, out)
+    finally:
+        b.restore()
+
+
+def _run_witness(qual, wit, R, c, b, out):
+    try:
+        env = b.build()
     except Exception as e:
         out.update(verdict="skipped", why="cannot build the inputs: %r" % (e,))
         return out
     nc = NativeContract(c, R)
+    try:
+        # clauses may name the classes of the function's own module (class variables: BorderStyle._none)
+        mod = importlib.import_module(qual.partition(":")[0])
+        for k, v in vars(mod).items():
+            if isinstance(v, type) and k not in nc.ns:
+                nc.ns[k] = v
+    except Exception:
+        pass
     okr, why = nc.check_requires(env)
     if not okr:
         out.update(verdict="skipped", why="model does not satisfy the native precondition: %s" % why)
